@@ -1,3 +1,4 @@
+import Ruint.Gen.WordsLehmer
 import Ruint.Model.Gcd
 /-! Driver for C12: evaluates the models (`Ruint.Lehmer.*`, `Ruint.Gcd.*`) and the spec column.
     For matrices and cofactors the spec is a predicate on the implementation's actual output. -/
@@ -98,6 +99,17 @@ def hypStr (bits a b : Nat) : Option String :=
 
 def orElse' (a b : Option String) : Option String := match a with | some x => some x | none => b
 
+/-! model column of the matrix constructors: on their documented domains the definitions GENERATED from
+`src/algorithms/gcd/matrix.rs` (`Ruint/Gen/WordsLehmer.lean`; `Props/C12` proves them equal to the hand model,
+`gen_*_eq`), elsewhere the hand model (which panics there). -/
+def gPre (a b : Nat) : Option Mat :=
+  if a < 2 ^ 63 ∨ a < b then fromU64Prefix a b else some (Ruint.Gen.lehmer_from_u64_prefix (b + 1) a b)
+def gU64 (a b : Nat) : Option Mat :=
+  if a < b ∨ ¬ a < W then fromU64 a b else some (Ruint.Gen.lehmer_from_u64 (b + 1) a b)
+def g128 (a b : Nat) : Option Mat :=
+  if a < b ∨ bitLen a < 64 ∨ 128 < bitLen a then fromU128Prefix a b
+  else some (Ruint.Gen.lehmer_from_u128_prefix (b / 2 ^ (bitLen a - 64) + 1) a b)
+
 def handle (args : List String) (impl : String) : String × String :=
   let iw := (impl.splitOn " ").filter (· ≠ "")
   match args with
@@ -140,7 +152,7 @@ def handle (args : List String) (impl : String) : String × String :=
           | none => some "no matrix"
         (m, pred spec)
     | "mu64" =>
-      let m := outMat (fromU64 a b)
+      let m := outMat (gU64 a b)
       if a < b then (m, "panic")
       else
         -- plain extended Euclid: the matrix maps (a, b) to (gcd, 0)
@@ -152,7 +164,7 @@ def handle (args : List String) (impl : String) : String × String :=
           | none => some "no matrix"
         (m, pred spec)
     | "mpre" =>
-      let m := outMat (fromU64Prefix a b)
+      let m := outMat (gPre a b)
       if a < 2 ^ 63 ∨ a < b then (m, "panic")
       else
         let spec := match parseMat iw with
@@ -160,7 +172,7 @@ def handle (args : List String) (impl : String) : String × String :=
           | none => some "no matrix"
         (m, pred spec)
     | "m128" =>
-      let m := outMat (fromU128Prefix a b)
+      let m := outMat (g128 a b)
       if a < b ∨ a = 0 then (m, "panic")
       else
         let spec := match parseMat iw with
@@ -201,7 +213,7 @@ def handle (args : List String) (impl : String) : String × String :=
       | "applyu128" =>
         let M : Int := 2 ^ 128
         let z := applyZ m a b
-        (pairStr (applyU128 m a b), pairStr ((z.1 % M).toNat, (z.2 % M).toNat))
+        (pairStr (Ruint.Gen.lehmer_apply_u128 m a b), pairStr ((z.1 % M).toNat, (z.2 % M).toNat))
       | _ => ("bad-op", "bad-op")
   | [op, _bs, m0, m1, m2, m3, s, n0, n1, n2, n3, t] =>
     match parseMat [m0, m1, m2, m3, s], parseMat [n0, n1, n2, n3, t] with
@@ -212,7 +224,7 @@ def handle (args : List String) (impl : String) : String × String :=
         let p : Mat := ((m.1 * n.1 + m.2.1 * n.2.2.1) % W, (m.1 * n.2.1 + m.2.1 * n.2.2.2.1) % W,
                         (m.2.2.1 * n.1 + m.2.2.2.1 * n.2.2.1) % W, (m.2.2.1 * n.2.1 + m.2.2.2.1 * n.2.2.2.1) % W,
                         m.2.2.2.2 == n.2.2.2.2)
-        (matStr (compose m n), matStr p)
+        (matStr (Ruint.Gen.lehmer_compose m n), matStr p)
       | _ => ("bad-op", "bad-op")
     | _, _ => ("bad-op", "bad-op")
   | [op, _bs, m0, m1, m2, m3, s, n0, n1, n2, n3, t, as, bs'] =>
